@@ -649,6 +649,8 @@ class Emit:
             return t, expect
         if ty == "NoneLit" and expect in ("OptF", "Elem", "OptNat"):
             return t, expect
+        if ty == "NoneLit" and isinstance(expect, tuple) and expect[0] == "opt":
+            return t, expect
         if expect in ("SentLo", "SentHi") and ty == "Rat":
             return f"some ({t})", expect        # a real value stored in a sentinel-initialised cache
         if expect == "OptF" and ty == "Nat":
@@ -881,11 +883,12 @@ class Emit:
                 raise Unsupported(".and() operand")
             if name == "map" and len(args) == 1 and args[0][0] == "closure" and tr in ("Elem", "OptNat", "OptF"):
                 cl = args[0]
-                if len(cl[1]) != 1 or cl[1][0][0] != "pvar":
+                if len(cl[1]) != 1 or cl[1][0][0] not in ("pvar", "pwild"):
                     raise Unsupported(".map closure parameter")
-                pn = cl[1][0][1]
+                pn = cl[1][0][1] if cl[1][0][0] == "pvar" else "_"
                 env2 = dict(env)
-                env2[pn] = "Nat" if tr == "OptNat" else "Rat"
+                if pn != "_":
+                    env2[pn] = "Nat" if tr == "OptNat" else "Rat"
                 if assigned_outer(cl[2]):
                     raise Unsupported(".map closure assigns")
                 b, tb = self.effect(cl[2], env2, [], None)
@@ -1194,6 +1197,12 @@ class Emit:
                 e_txt, e_ty = self.stmts([], None, dict(env), outs, None)
             else:
                 e_txt, e_ty = self.effect(e[4], dict(env), outs, expect)
+            if t_ty != e_ty and "NoneLit" in (t_ty, e_ty) and e[4] is not None:
+                want = e_ty if t_ty == "NoneLit" else t_ty
+                env_t = dict(env)
+                ptxt = self.bind_pat(p[1], sty[1], env_t)
+                t_txt, t_ty = self.stmts(e[3][1], e[3][2], env_t, outs, want)
+                e_txt, e_ty = self.effect(e[4], dict(env), outs, want)
             if t_ty != e_ty:
                 raise Unsupported("if let branches of different types")
             return f"match {stxt} with\n| some {ptxt} =>\n{indent(t_txt)}\n| none =>\n{indent(e_txt)}", t_ty
@@ -1204,9 +1213,11 @@ class Emit:
     def join(self, e, env, env_t, outs, t_txt, t_ty, e_txt, e_ty, expect):
         if t_ty == e_ty:
             return t_txt, e_txt, t_ty
-        if {t_ty, e_ty} <= {"Rat", "OptF", "Elem"} or (isinstance(t_ty, tuple) and isinstance(e_ty, tuple)):
+        optish = lambda t: t in ("OptF", "Elem", "OptNat") or (isinstance(t, tuple) and t[0] == "opt")
+        if (t_ty == "NoneLit" and optish(e_ty)) or (e_ty == "NoneLit" and optish(t_ty)) or \
+                {t_ty, e_ty} <= {"Rat", "OptF", "Elem"} or (isinstance(t_ty, tuple) and isinstance(e_ty, tuple)):
             # re-translate with the wider type expected
-            want = self.wider(t_ty, e_ty)
+            want = (e_ty if t_ty == "NoneLit" else t_ty) if "NoneLit" in (t_ty, e_ty) else self.wider(t_ty, e_ty)
             if e[0] == "if":
                 t2, tt = self.stmts(e[2][1], e[2][2], dict(env_t), outs, want)
                 if e[3] is None:
@@ -1365,7 +1376,8 @@ class Emit:
                     want = ann if ann in ("Elem", "OptNat", "OptF") else None
                     if p[0] == "pvar" and p[1] in self.nan_vars and s[2]:
                         want = "OptF"
-                    if want is None and e == ("path", "None") and p[0] == "pvar" and p[1] in getattr(self, "none_types", {}):
+                    if want is None and p[0] == "pvar" and p[1] in getattr(self, "none_types", {}) \
+                            and (e == ("path", "None") or e[0] in ("if", "iflet")):
                         want = self.none_types[p[1]]
                     txt, ty = self.ex(e, env, want)
                     if ty == "NoneLit":
